@@ -162,6 +162,83 @@ def body_sync(a0, a1, a2, b0, b1, b2):
     return (ok, cls + (":nochange" if not changed and not removed else ":changes"))
 
 
+def body_sync_overlap(a0, a1, b0, b1, body_new):
+    """A write lands while the report renders a body-loading property (the to_thread suspension): the change list
+    and the returned token must describe ONE state - either the one before or the one after the write."""
+    kind = ctx.PART
+    S_i = _store.pre_state([a0, a1, b""], 2)
+    S_j = _store.pre_state([b0, b1, b""], 2)
+    if not (SP.invariant(S_i) and SP.invariant(S_j)) or not SP.valid("n.vcf", body_new) or len(body_new) == 0:
+        return (True, "pre-invalid")
+    Wm.reset()
+    mstore.install_state(kind, _store.PATH, S_i)
+    token_i = mstore.open_store(kind, _store.PATH).get_ctag()
+    _move(kind, S_i, S_j)
+    store = mstore.open_store(kind, _store.PATH)
+    col = Wb.Collection(None, "/col", store)
+    S_k = dict(S_j)
+    S_k["n.vcf"] = body_new
+    fired = {}
+
+    def intruder():
+        fired["x"] = True
+        mstore.open_store(kind, _store.PATH).import_one("n.vcf", None, [body_new], message="m")
+
+    body = ET.Element("{DAV:}sync-collection")
+    ET.SubElement(body, "{DAV:}sync-token").text = token_i
+    ET.SubElement(body, "{DAV:}sync-level").text = "1"
+    prop = ET.SubElement(body, "{DAV:}prop")
+    ET.SubElement(prop, "{DAV:}getetag")
+    ET.SubElement(prop, "{DAV:}getcontentlength")
+    app = W.WebDAVApp(_Backend(col))
+    app.register_reporters([XSync.SyncCollectionReporter()])
+    app.register_properties([W.GetETagProperty(), W.GetContentLengthProperty()])
+    req = mhttp.AioRequest("REPORT", "/col/", headers=[("Depth", "1")], body=b"<x/>", content_type="text/xml")
+    saved = (W._readXmlBody, W._send_dav_responses)
+
+    async def read_xml(request, expected_tag=None, strict=True):
+        return body
+
+    W._readXmlBody = read_xml
+    W._send_dav_responses = lambda responses, enc: responses
+    Wm.TO_THREAD_HOOK[0] = intruder
+    try:
+        out = drive(app._handle_request(req, {"SCRIPT_NAME": "/"}))
+    finally:
+        W._readXmlBody, W._send_dav_responses = saved
+        Wm.TO_THREAD_HOOK[0] = None
+    if not isinstance(out, list):
+        return (False, "no-listing")
+    replica = {nm: '"' + mstore.expected_etag(kind, b) + '"' for nm, b in S_i.items()}
+    token = None
+    for r in out:
+        if isinstance(r, XSync.SyncToken):
+            token = r.token
+            continue
+        name = r.href[len("/col/"):]
+        if r.status is not None and r.status.startswith("404"):
+            replica.pop(name, None)
+        else:
+            et = [ps.prop.text for ps in (r.propstat or []) if ps.prop.tag == "{DAV:}getetag" and ps.statuscode == "200 OK"]
+            if len(et) != 1:
+                return (False, "no-etag")
+            replica[name] = et[0]
+    ok = False
+    for state in (S_j, S_k):
+        want = {nm: '"' + mstore.expected_etag(kind, b) + '"' for nm, b in state.items()}
+        if replica == want and token == _store.expected_ctag(state):
+            ok = True
+    return (ok, "overtaken" if fired else "not-overtaken")
+
+
+def h_sync_overlap(a0: bytes, a1: bytes, b0: bytes, b1: bytes, body_new: bytes) -> bool:
+    """
+    pre: max(len(a0), len(a1), len(b0), len(b1), len(body_new)) <= ctx.b.blen
+    post: _
+    """
+    return run(body_sync_overlap, a0, a1, b0, b1, body_new)
+
+
 def h_sync(a0: bytes, a1: bytes, a2: bytes, b0: bytes, b1: bytes, b2: bytes) -> bool:
     """
     pre: max(len(a0), len(a1), len(a2), len(b0), len(b1), len(b2)) <= ctx.b.blen
@@ -184,4 +261,10 @@ HARNESSES = [
                      "xandikos.store.git.GitStore.iter_with_etag", "xandikos.store.git.BareGitStore._iterblobs",
                      "xandikos.store.git.TreeGitStore._iterblobs", "xandikos.webdav.ReportMethod.handle",
                      "xandikos.webdav.GetETagProperty.get_value"]),
+    Harness("sync_overlap", h_sync_overlap, body_sync_overlap, classes=[("overtaken", "bare"), ("not-overtaken", "tree")],
+            parts={"quick": ["bare", "tree"]}, bounds=_B, budget={"quick": 75, "thorough": 400},
+            describe="sync-collection rendering a body-loading property while a write lands at the to_thread suspension: "
+                     "change list and returned token describe one and the same state; part = back end",
+            encodes=["xandikos.sync.SyncCollectionReporter.report", "xandikos.web.ObjectResource.get_file",
+                     "xandikos.web.StoreBasedCollection.iter_differences_since"]),
 ]
